@@ -1760,3 +1760,49 @@ M("c11x1", "fire", ["C11"], "get_variants: the type filter sits inside a branch 
                     continue
             if arch and arch not in variant.arches.union(["src"]):
                 continue'''))
+
+# ============================================================ sharing rules (round 8) ======================
+M("sh1", "fire", ["C03", "C12"], "Rpms() without argument shares one default mapping",
+  (RP, '''    def __init__(self):
+        super(Rpms, self).__init__()
+        self.header = Header(self, "productmd.rpms")
+        self.compose = Compose(self)
+        self.rpms = {}''', '''    def __init__(self, rpms={}):
+        super(Rpms, self).__init__()
+        self.header = Header(self, "productmd.rpms")
+        self.compose = Compose(self)
+        self.rpms = rpms'''))
+M("sh2", "neutral", [], "Rpms(rpms=None) starts from a fresh mapping unless one is given",
+  (RP, '''    def __init__(self):
+        super(Rpms, self).__init__()
+        self.header = Header(self, "productmd.rpms")
+        self.compose = Compose(self)
+        self.rpms = {}''', '''    def __init__(self, rpms=None):
+        super(Rpms, self).__init__()
+        self.header = Header(self, "productmd.rpms")
+        self.compose = Compose(self)
+        self.rpms = {} if rpms is None else rpms'''))
+M("sh3", "neutral", [], "get_variants with a mutable default that is only read (types=[] never stored or changed)",
+  (CI, '''    def get_variants(self, arch=None, types=None, recursive=False):''',
+       '''    def get_variants(self, arch=None, types=(), recursive=False):'''))
+M("sh4", "fire", ["C14"], "a release type seen while validating is appended to the shared RELEASE_TYPES table",
+  (CI, '''    def _validate_type(self):
+        self._assert_type("type", list(six.string_types))
+        self._assert_value("type", productmd.common.RELEASE_TYPES)
+
+    @property''', '''    def _validate_type(self):
+        self._assert_type("type", list(six.string_types))
+        known = productmd.common.RELEASE_TYPES
+        if self.type.endswith("-testing") and self.type not in known:
+            known.append(self.type)
+        self._assert_value("type", productmd.common.RELEASE_TYPES)
+
+    @property'''))
+M("sh5", "neutral", [], "a local copy of RELEASE_TYPES is extended, the table itself is untouched",
+  (CO, '''def is_valid_release_type(release_type):''', '''def _release_types_with(extra):
+    types = list(RELEASE_TYPES)
+    types.append(extra)
+    return types
+
+
+def is_valid_release_type(release_type):'''))
